@@ -551,7 +551,8 @@ func lexLiterals(h *verifx.H, text string, toks []token, printed bool) {
 		// `@ [+-] <decimal>`: the decimal text → milliseconds (model atMs), where float64 cannot disturb the rounding:
 		// at most 6 fraction digits, integer part below 2^32, not exactly half a millisecond
 		if t.name == "NUMBER" && (i >= 1 && toks[i-1].name == "AT" || i >= 2 && toks[i-2].name == "AT" && (toks[i-1].name == "ADD" || toks[i-1].name == "SUB")) {
-			if m := decimalRe.FindStringSubmatch(t.text); m != nil && len(m[1]) <= 9 && len(m[2]) <= 7 && !halfMs(m[2]) {
+			if m := decimalRe.FindStringSubmatch(t.text); m != nil && len(m[1]) <= 9 && len(m[2]) <= 7 && !halfMs(m[2]) &&
+				!(len(m[1]) > 1 && m[1][0] == '0' && m[2] == "") { // `0776` is an octal integer for strconv.ParseInt(…, 0, 64), not a decimal
 				if v, ok := parser.VerifNumber(t.text); ok {
 					h.Op("atms %s", hx(t.text))
 					h.Obs("ms %s", msOf(v))
